@@ -40,8 +40,11 @@ BASE_TOKENS = sorted(SPELL)
 # exotic tokens (StaticPathOps.ExoticTokens): segments that cannot name anything - a NUL byte
 # survives the one level of decoding, an invalid UTF-8 escape, a name longer than NAME_MAX
 SPELL.update({'n0': '%00', 'fn': 'f.txt%00', 'nf': 'f%00.txt', 'dn': '..%00', 'xff': '%ff', 'long': 'a' * 300})
+# an encoded slash followed by the absolute path of the docroot's parent: spelled per tree (Tree.__init__)
+SPELL.update({'ap': None, 'apf': None, 'ap5': None})
 EXOTIC_TOKENS = sorted(set(SPELL) - set(BASE_TOKENS))
-BAD_SPELL = {1: 'abc-', 2: '5', 3: '-', 4: '-xyz', 5: '2-x'}
+BAD_SPELL = {1: 'abc-', 2: '5', 3: '-', 4: '-xyz', 5: '2-x',
+             6: '1-+5', 7: '+1-5', 8: '1_0-2_0', 9: '--5', 10: '\u00b2-5', 11: '1 0-5'}
 OUTSIDE_BODIES = ('gp_f', 'parent_f', 'secret', 'evil_f', 'list_gp', 'list_parent', 'list_evil', 'list_top')
 PATH_KEYS = ('k', 'mount', 'fe', 'n', 't1', 't2', 't3', 't4', 't5', 't6', 'status', 'body', 'leak')
 
@@ -82,18 +85,24 @@ class Tree:
             if fid in OUTSIDE_BODIES:
                 self.markers.append(('C16-%s-%s' % (fid.upper(), self.nonce)).encode())
         self.docroot = os.path.join(self.top, 'g', 'p', 'www')
+        parent = os.path.dirname(self.docroot)          # absolute, starts with '/'
+        self.abs_spell = {'ap': '%2F' + parent[1:], 'apf': parent.replace('/', '%2f'), 'ap5': '%5C' + parent[1:]}
         self.range_files = {}
         # the model assumes that no token names anything that exists above G
         up = self.top
         while True:
             for t in SPELL.values():
-                if t not in ('', '.', '..', '..%2f..') and os.path.lexists(os.path.join(up, t)):
+                if t is not None and t not in ('', '.', '..', '..%2f..') and os.path.lexists(os.path.join(up, t)):
                     raise tlc.MachineryError('%s exists: the abstract file system of StaticPathOps does not hold here'
                                              % os.path.join(up, t))
             nxt = os.path.dirname(up)
             if nxt == up:
                 break
             up = nxt
+
+    def use_spellings(self):
+        SPELL.update(self.abs_spell)
+        return self
 
     def range_file(self, size):
         if size not in self.range_files:
@@ -405,7 +414,11 @@ def range_triggers(size, specs):
     t = set()
     for sp in specs:
         k, a, b = sp['kind'], sp['a'], sp['b']
-        if k == 'bad' and a != 3:
+        if k == 'bad' and a == 10:
+            t.add('non_ascii_digit')
+        elif k == 'bad' and a in (6, 7, 8, 9, 11):
+            t.add('signed_or_grouped_number')
+        elif k == 'bad' and a != 3:
             t.add('non_numeric')
         elif k == 'suffix' and a == 0:
             t.add('suffix_zero')
@@ -581,7 +594,7 @@ def random_specs(rnd, big=False):
         elif k < 0.9:
             specs.append({'kind': 'suffix', 'a': rnd.choice(vals), 'b': -1})
         else:
-            specs.append({'kind': 'bad', 'a': rnd.choice([1, 2, 3, 4, 5]), 'b': -1})
+            specs.append({'kind': 'bad', 'a': rnd.choice(sorted(BAD_SPELL)), 'b': -1})
     return specs
 
 
@@ -589,7 +602,7 @@ def run_replay(path):
     """./check C16 --replay <file>: re-run one recorded case on the real components."""
     rec = json.load(open(path))
     d = rec['detail']
-    tree = Tree(rec.get('seed', 0))
+    tree = Tree(rec.get('seed', 0)).use_spellings()
     try:
         if d['kind'] == 'path':
             apps = {d['mount']: App(tree, d['mount'])}
@@ -639,6 +652,9 @@ def run(tier, replay=None):
         # verdicts from the `bad` variable of the pinned dumps below)
         jobs['teeth_parent'] = lambda: tlc.run_tlc(SPEC, 'StaticPath', 'MC_StaticPath_parent.cfg', workers=1, jvm_opts=JVM)
         jobs['teeth_statprobe'] = lambda: tlc.run_tlc(SPEC, 'StaticPath', 'MC_StaticPath_statprobe.cfg', workers=1, jvm_opts=JVM)
+        jobs['teeth_normpath'] = lambda: tlc.run_tlc(SPEC, 'StaticPath', 'MC_StaticPath_normpath.cfg', workers=1, jvm_opts=JVM)
+        jobs['teeth_intparse'] = lambda: tlc.run_tlc(SPEC, 'Ranges', 'MC_Ranges_intparse.cfg', workers=1, jvm_opts=JVM)
+        jobs['teeth_isdigit'] = lambda: tlc.run_tlc(SPEC, 'Ranges', 'MC_Ranges_isdigit.cfg', workers=1, jvm_opts=JVM)
         jobs['teeth_urlsplit'] = lambda: tlc.run_tlc(SPEC, 'StaticPath', 'MC_StaticPath_urlsplit.cfg', workers=1, jvm_opts=JVM)
         jobs['teeth_range'] = lambda: tlc.run_tlc(SPEC, 'Ranges', 'MC_Ranges_pinned.cfg', workers=1, jvm_opts=JVM)
     with ThreadPoolExecutor(max_workers=len(jobs)) as ex:
@@ -666,7 +682,7 @@ def run(tier, replay=None):
             raise tlc.MachineryError('the pinned variants of the models are no longer flagged with %s: the models '
                                      'lost their teeth' % clause)
 
-    tree = Tree(ctx.seed)
+    tree = Tree(ctx.seed).use_spellings()
     opened_outside = []
     auditing = [False]
 
